@@ -122,6 +122,20 @@ def ref_definitions(tier):
                     ref = unit("Ref_Unit", SYMS[0], None, "NONE" if pat["prefix"] else None, "reference" if pat["doc"] else None)
                     defs.append({"kind": "ref", "ref": ref, "units": us, "order": list(perm), "doc_pos": pat["doc_pos"],
                                  "combo": combo})
+    if tier == "thorough":
+        # n = 3 over the full literal set (512 combinations) in three attribute orders
+        for combo in itertools.product(LITS_FULL, repeat=3):
+            if all(c in LITS_SMALL for c in combo):
+                continue
+            for perm in ((0, 1, 2, 3), (3, 2, 1, 0), (1, 2, 3, 0)):
+                pat = pattern(k, 4)
+                k += 1
+                us = []
+                for i, lit in enumerate(combo):
+                    pre = PREFIX_FOR.get(lit) if pat["prefix"] else None
+                    us.append(unit("Unit_%s" % "abc"[i].upper() + "x", SYMS[i + 1], lit, pre, "doc %d" % i if pat["doc"] else None))
+                ref = unit("Ref_Unit", SYMS[0], None, "NONE" if pat["prefix"] else None, "reference" if pat["doc"] else None)
+                defs.append({"kind": "ref", "ref": ref, "units": us, "order": list(perm), "doc_pos": pat["doc_pos"], "combo": combo})
     return defs
 
 
